@@ -672,7 +672,13 @@ func (e *Env) evalCall(n *ast.CallExpr) TV {
 	case "boolof":
 		return TV{tt.Sel("v-b", "vbool", "Bool", asTerm(arg(0).V)), tBool}
 	case "ptrof":
-		return TV{tt.Sel("v-p", "vptr", "Int", asTerm(arg(0).V)), types.Typ[types.UnsafePointer]}
+		av := asTerm(arg(0).V)
+		pv := tt.Sel("v-p", "vptr", "Int", av)
+		if o, ok := x.valOrigin[av.id]; ok && !pv.hasBound {
+			// a validator held in a slot of interface type: the forest facts of a stored child
+			x.noteChildLoad(o, pv)
+		}
+		return TV{pv, types.Typ[types.UnsafePointer]}
 	case "isInt", "isUint", "isF64", "isF32", "isStr", "isBool", "isPtr", "isSliceV":
 		c := map[string]string{"isInt": "vint", "isUint": "vuint", "isF64": "vf64", "isF32": "vf32", "isStr": "vstr", "isBool": "vbool", "isPtr": "vptr", "isSliceV": "vslice"}[fname]
 		return TV{tt.Is(c, asTerm(arg(0).V)), tBool}
